@@ -72,6 +72,7 @@ class Recorder:
         self.unheld = {i: [] for i in range(nthreads)}
         self.data = {i: [] for i in range(nthreads)}
         self.tokens[None], self.unheld[None], self.data[None] = [], [], []
+        self.seq = []                 # global order of completed calls: (thread, token)
         self.jitter = None
 
     def tid(self):
@@ -97,6 +98,7 @@ class Recorder:
     def event(self, tok, held=None, data=None):
         t = self.tid()
         self.tokens[t].append(tok)
+        self.seq.append((t, tok))
         if held is False:
             self.unheld[t].append(tok)
         if data is not None:
@@ -152,6 +154,36 @@ class WLock:
     def __exit__(self, *a):
         self.release()
         return False
+
+
+class AnyLock:
+    """'is the calling thread inside ANY of the wrapped locks' — used when the harness does not know (and must not
+    ask) which lock object a fresh proxy uses."""
+    null = False
+
+    def __init__(self, locks):
+        self.locks = locks
+
+    def held(self):
+        return any(l.held() for l in self.locks)
+
+
+def overlapping_sections(seq):
+    """Mutual exclusion read off the recorded events (not off lock identities): a file call made by one thread while
+    another thread is between an acquire and its release.  Returns the first offending (thread, call, other) or None."""
+    depth = {}
+    for t, tok in seq:
+        if t is None:
+            continue
+        if tok == 'A':
+            depth[t] = depth.get(t, 0) + 1
+        elif tok == 'R':
+            depth[t] = depth.get(t, 0) - 1
+        elif tok != 'N':
+            for u, d in depth.items():
+                if u != t and d > 0:
+                    return (t, tok, u)
+    return None
 
 
 def _seek_tok(o, w):
@@ -432,7 +464,7 @@ class Scenario:
         self.mmap = {'orig': True, 'copy': True, 'copy2': True}
         if mmap:
             self.mmap.update(mmap)
-        if kind != 'handle':
+        if kind not in ('handle', 'fresh'):
             self.mmap = {'orig': False, 'copy': False, 'copy2': False}
 
     def desc(self):
@@ -452,6 +484,36 @@ class Scenario:
         fs = self.fs
         self.wlock = WLock(rec, null=self.nolock)
         self.close = lambda: None
+        if self.kind == 'fresh':
+            # A proxy nobody has touched: the harness neither replaces nor looks at proxy._lock.  Locks are observed
+            # by making `RLock` as seen from nibabel.arrayproxy a factory of recording wrappers around real RLocks;
+            # a creation made by a worker thread is itself a scheduling point (event N).
+            import nibabel.arrayproxy as _ap
+            self.factory_locks = []
+            real_rlock = threading.RLock
+            saved = _ap.RLock
+
+            def factory():
+                rec.gate()
+                try:
+                    lk = WLock(rec, real=real_rlock())
+                    self.factory_locks.append(lk)
+                    if rec.tid() is not None:
+                        rec.event('N')
+                    return lk
+                finally:
+                    rec.after()
+            _ap.RLock = factory
+
+            def unpatch():
+                _ap.RLock = saved
+            self.close = unpatch
+            f = WFile(fs.bytes)
+            f.rec, f.wlock = rec, AnyLock(self.factory_locks)
+            self.fobj = f
+            orig = ArrayProxy(f, fs.par(), mmap=self.mmap['orig'], order=fs.order)
+            self.proxies = {'orig': orig}
+            return self
         if self.kind == 'handle':
             f = WFile(fs.bytes)
             f.rec, f.wlock = rec, self.wlock
@@ -511,11 +573,13 @@ class Scenario:
 
     def handle_of(self, name):
         p = self.proxies[name]
-        return self.fobj if self.kind == 'handle' else p._opener.fobj
+        return self.fobj if self.kind in ('handle', 'fresh') else p._opener.fobj
 
     def sharing(self):
         """groups of threads by underlying file object, and pairs of proxies that share a file
         object but not the lock"""
+        if self.kind == 'fresh':                 # do not look at proxy._lock
+            return [list(range(len(self.threads)))], []
         groups = {}
         for i, t in enumerate(self.threads):
             groups.setdefault(id(self.handle_of(t['proxy'])), []).append(i)
@@ -653,15 +717,19 @@ class Runner:
         rec.scheduled = False
         try:
             endpos = None
-            if sc.kind == 'handle':
+            if sc.kind in ('handle', 'fresh'):
                 endpos = io.BytesIO.tell(sc.fobj)
-            lock_free = all(p._lock.depth == 0 for p in sc.proxies.values() if isinstance(p._lock, WLock))
+            if sc.kind == 'fresh':
+                lock_free = all(l.depth == 0 for l in sc.factory_locks)
+            else:
+                lock_free = all(p._lock.depth == 0 for p in sc.proxies.values() if isinstance(p._lock, WLock))
         finally:
             sc.close()
         return {'ok': ok, 'trace': trace, 'eff': eff, 'results': results, 'errors': errors,
                 'tokens': [list(rec.tokens[i]) for i in range(n)], 'unheld': [list(rec.unheld[i]) for i in range(n)],
                 'data': [list(rec.data[i]) for i in range(n)], 'endpos': endpos, 'lock_free': lock_free,
-                'groups': groups, 'bad_sharing': bad_sharing}
+                'groups': groups, 'bad_sharing': bad_sharing, 'seq': list(rec.seq),
+                'locks_created': len(sc.factory_locks) if sc.kind == 'fresh' else None}
 
 
 # ---- schedule policies
@@ -759,6 +827,10 @@ def core_scenarios(thorough=False):
         Scenario(big_files()[1], [dict(proxy='orig', reads=[(S(None), S(None), S(None, None, 2))]),
                                   dict(proxy='orig', reads=[(5, 5, 1), (S(0, 8), 3, 2)])],
                  mmap={'orig': False}, name='two 2 MiB segments racing two small reads (same proxy)'),
+        Scenario(A, [dict(proxy='orig', reads=[S1]), dict(proxy='orig', reads=[S1b])], kind='fresh',
+                 name='FRESH proxy (never read, copied or inspected): first reads of 2 threads, single segments'),
+        Scenario(A, [dict(proxy='orig', reads=[M2]), dict(proxy='orig', reads=['W']), dict(proxy='orig', reads=[S1b])],
+                 kind='fresh', name='FRESH proxy: first reads of 3 threads, multi-segment / whole / single segment'),
     ] + ([
         Scenario(B, [dict(proxy='orig', reads=[M2, S1b]), dict(proxy='copy', reads=['W', M2b]),
                      dict(proxy='copy2', reads=[S1, (Ellipsis, 0)], outer=True)], mmap={'copy': False},
@@ -878,6 +950,15 @@ def evaluate(chk, sc, progs, wl_ok, single, run, mout, tag):
                 break
         if pred is None and not run['lock_free']:
             pred = 'lock still held after all threads finished'
+        if pred is None and len(run['groups']) == 1:
+            ov = overlapping_sections(run['seq'])
+            if ov:
+                pred = (f'no mutual exclusion: thread {ov[0]} made file call {ov[1]} while thread {ov[2]} was inside its '
+                        'critical section (read off the recorded acquire/release/file events)')
+        if pred is None and run.get('locks_created') not in (None, 1):
+            pred = f"{run['locks_created']} lock objects were created for one fresh proxy"
+        elif pred and run.get('locks_created') not in (None, 1):
+            pred += f"; {run['locks_created']} lock objects were created for one fresh proxy"
     if not sc.nolock and pred is None and run['bad_sharing']:
         pred = ('proxies share one underlying file object but not the lock: ' +
                 ', '.join(f'{a}/{b}' for a, b in run['bad_sharing']))
@@ -939,7 +1020,7 @@ def run(chk: Check):
                 'probe; same proxy, copy, copy of copy, re-entrant caller lock, keep_file_open plain and .gz, and '
                 'keep_file_open path proxies with copy() / copy of copy taken AFTER a first read, .gz path proxies with '
                 'keep_file_open default / False whose IndexedGzipFile opener is persisted, 2 MiB segments racing small reads) plus '
-                'random schedules of random scenarios; a case is non-trivial when it performs at least one file '
+                'random schedules of random scenarios; FRESH proxies (never read, copied or inspected; locks observed through an RLock factory seen by nibabel.arrayproxy, creation is a scheduling point; mutual exclusion read off the recorded events); a case is non-trivial when it performs at least one file '
                 'call; schedules are distinct by their recorded thread-id sequence, call sequences by '
                 '(file, variant, index)')
     chk.assumptions = ['the OS scheduler and the GIL are replaced by a gate at every wrapped lock / file call; '
@@ -982,7 +1063,7 @@ def run(chk: Check):
     for _ in range(chk.n(12, 160)):
         fs = rng.choice(files)
         nt = rng.choice([2, 2, 3])
-        kind = rng.choice(['handle', 'handle', 'handle', 'kfo', 'kfo_gz', 'gz_def', 'gz_false'])
+        kind = rng.choice(['handle', 'handle', 'handle', 'fresh', 'kfo', 'kfo_gz', 'gz_def', 'gz_false'])
         ths = []
         for _ in range(nt):
             reads = []
@@ -996,10 +1077,10 @@ def run(chk: Check):
                 else:
                     ix = 'W'
                 reads.append(ix)
-            ths.append(dict(proxy=rng.choice(['orig', 'copy', 'copy2'] if kind == 'handle' else ['orig', 'orig', 'copy', 'copy2']), reads=reads,
-                            outer=rng.random() < 0.2))
+            ths.append(dict(proxy='orig' if kind == 'fresh' else rng.choice(['orig', 'copy', 'copy2'] if kind == 'handle' else ['orig', 'orig', 'copy', 'copy2']), reads=reads,
+                            outer=(rng.random() < 0.2) and kind != 'fresh'))
         rand_scs.append(Scenario(fs, ths, kind=kind, mmap={'orig': rng.random() < 0.5, 'copy': rng.random() < 0.5}
-                                 if kind == 'handle' else None, p0=rng.randrange(0, 64), name='random'))
+                                 if kind in ('handle', 'fresh') else None, p0=rng.randrange(0, 64), name='random'))
     all_scs = [canary] + scs + rand_scs
     import nibabel.openers as _op
     if not _op.HAVE_INDEXED_GZIP:       # without indexed_gzip a .gz path proxy opens a private handle per read
@@ -1532,8 +1613,13 @@ def _replay(chk, obj):
         r = runner.run(sc, policy_trace(c['schedule'], policy_preempt({})))
         bad = (not r['ok']) or any(r['errors'][i] for i in range(len(sc.threads))) or r['results'] != single \
             or any(r['unheld'][i] for i in range(len(sc.threads)))
+        ov = overlapping_sections(r['seq']) if len(r['groups']) == 1 else None
+        if ov or r['bad_sharing'] or r.get('locks_created') not in (None, 1):
+            bad = True
         if sc.nolock:
             bad = False
+        print({'overlapping_critical_sections': ov, 'locks_created_for_fresh_proxy': r.get('locks_created'),
+               'share_file_but_not_lock': r['bad_sharing']})
         print({'schedule': r['trace'], 'errors': r['errors'], 'calls': [join_progs(t) for t in r['tokens']],
                'same_as_single_threaded': [r['results'][i] == single[i] for i in range(len(sc.threads))],
                'calls_without_lock': r['unheld']})
